@@ -1,5 +1,6 @@
 import KoordVerif.Common.Proto
 import KoordVerif.Model.C20
+import KoordVerif.Model.C20Hist
 /-
 Driver for C20.  A case is a history of ConfigMap events on one SLOCfg cache, with probes:
   def <s> <v> <k>*                  one flattened entry of the built-in default of section s (0..3); before any event
@@ -13,6 +14,15 @@ Driver for C20.  A case is a history of ConfigMap events on one SLOCfg cache, wi
   node <bw> <nl> (<k> <v>)*         probe: getNodeSLOSpec for a node with these labels; bw = bandwidth annotation
                                     (-1 none, -2 unparsable, else its value)
 Output per probe: `o <s> <v> <k>*` for every entry of the five delivered sections, sorted by path.
+
+History harness (`hist`, Model/C20Hist.lean): one World (cache + API objects) per case, ops
+  hev <kind> <ident>*               begin a ConfigMap event, kind 1 Create / 2 Update; ident = what DeepEqual sees of
+                                    .Data (nil flag, then one text id per key); followed by sec/c/n/ne lines and `end`
+  hdel | hforeign                   ConfigMap deleted (+ Delete event) | event for a ConfigMap of another name
+  hnode <op> <name> <nl> (<k> <v>)* op 0 node added, 1 node updated (new labels), 2 node deleted
+  hrestart <cmFirst>                controller restart
+  hobs                              print every NodeSLO (`s <name> <sec> <v> <k>*`, by name) and, per node, what the cache
+                                    would deliver (`g <name> same` when equal to the stored NodeSLO, else `g <name> <sec> ...`)
 -/
 namespace KoordVerif.C20
 open KoordVerif.Proto
@@ -43,6 +53,9 @@ structure DState where
   cfg : Option Cfg := none
   pend : Option (Array SecB) := none
   out : Array String := #[]
+  hw : Option World := none                  -- history harness: the world
+  table : List (Ident × CM) := []            -- history harness: parse (text identities ↦ sections)
+  pendH : Option (Nat × Ident) := none       -- history harness: kind and ident of the event being read
 
 def DState.defaults (s : DState) : Defaults :=
   { thr := s.dThr.toList, qos := s.dQos.toList, burst := s.dBurst.toList, sys := s.dSys.toList }
@@ -90,16 +103,72 @@ def modifySec (s : DState) (sec : Nat) (f : SecB → Option SecB) : DState :=
 def applyEvent (s : DState) (cm : Option CM) : DState :=
   { s with cfg := some (sync s.defaults s.cur cm), pend := none }
 
+def emptyCM : CM := { thr := .absent, qos := .absent, burst := .absent, sys := .absent, host := .absent }
+
+def DState.parse (s : DState) : Ident → CM :=
+  fun i => ((s.table.find? (fun e => e.1 == i)).map (·.2)).getD emptyCM
+
+def DState.world (s : DState) : World := s.hw.getD (World.init s.defaults)
+
+def DState.hstep (s : DState) (st : HStep) : DState :=
+  { s with hw := some (KoordVerif.C20.hstep s.defaults s.parse s.world st), pend := none, pendH := none }
+
+def natLe (a b : Nat) : Bool := a ≤ b
+
+def showSpec (tag : String) (name : Nat) (spec : List Flat) : List String :=
+  (spec.zipIdx.map fun (t, i) =>
+    (t.mergeSort (fun a b => pathLe a.1 b.1)).map fun e =>
+      s!"{tag} {name} {i} {e.2}" ++ String.join (e.1.map fun k => s!" {k}")).flatten
+
+def showWorld (w : World) : List String :=
+  let slos := w.slos.mergeSort (fun a b => natLe a.1 b.1)
+  let nodes := w.nodes.mergeSort (fun a b => natLe a.1 b.1)
+  (slos.map fun (n, sp) => showSpec "s" n sp).flatten ++
+  (nodes.map fun (n, ls) =>
+    let want := showSpec "x" n (nodeSpec w.cfg ls)
+    match lookupA w.slos n with
+    | some sp => if showSpec "x" n sp == want then [s!"g {n} same"] else showSpec "g" n (nodeSpec w.cfg ls)
+    | none => showSpec "g" n (nodeSpec w.cfg ls)).flatten
+
 def stepLine (s : DState) (line : String) : DState :=
   match toks line with
   | "def" :: sec :: rest =>
+    if s.hw.isSome then s.bad else
     match nat? sec, entry? rest, s.cfg with
     | some 0, some e, none => { s with dThr := s.dThr.push e }
     | some 1, some e, none => { s with dQos := s.dQos.push e }
     | some 2, some e, none => { s with dBurst := s.dBurst.push e }
     | some 3, some e, none => { s with dSys := s.dSys.push e }
     | _, _, _ => s.bad
+  | "hev" :: kind :: rest =>
+    match nat? kind, ints? rest, s.pend, s.cfg with
+    | some kind, some ident, none, none =>
+      if kind = 1 || kind = 2 then
+        { s with hw := some s.world, pend := some (Array.replicate 5 {}), pendH := some (kind, ident) }
+      else s.bad
+    | _, _, _, _ => s.bad
+  | ["hdel"] => if s.pend.isSome || s.cfg.isSome then s.bad else s.hstep .cmDelete
+  | ["hforeign"] => if s.pend.isSome || s.cfg.isSome then s.bad else s.hstep .cmForeign
+  | ["hrestart", f] =>
+    match nat? f with
+    | some f => if s.pend.isSome || s.cfg.isSome || f > 1 then s.bad else s.hstep (.restart (f = 1))
+    | none => s.bad
+  | "hnode" :: op :: name :: nl :: rest =>
+    match nat? op, nat? name, nat? nl, nats? rest with
+    | some op, some name, some nl, some kv =>
+      if s.pend.isSome || s.cfg.isSome || kv.length ≠ 2 * nl then s.bad else
+      let ls : Labels := (chunks 2 kv).filterMap fun | [k, v] => some (k, v) | _ => none
+      match op with
+      | 0 => s.hstep (.nodeAdd name ls)
+      | 1 => s.hstep (.nodeUpdate name ls)
+      | 2 => if nl = 0 then s.hstep (.nodeDelete name) else s.bad
+      | _ => s.bad
+    | _, _, _, _ => s.bad
+  | ["hobs"] =>
+    if s.pend.isSome || s.cfg.isSome then s.bad else
+    { s with hw := some s.world, out := s.out ++ (showWorld s.world).toArray }
   | ["ev", p] =>
+    if s.hw.isSome then s.bad else
     match nat? p, s.pend with
     | some 0, none => applyEvent s none
     | some 1, none => { s with pend := some (Array.replicate 5 {}) }
@@ -140,12 +209,17 @@ def stepLine (s : DState) (line : String) : DState :=
     | some p =>
       if p.size = 5 then
         let g := fun (i : Nat) => (p.getD i {}).toIn
-        applyEvent s (some { thr := g 0, qos := g 1, burst := g 2, sys := g 3, host := g 4 })
+        let cm : CM := { thr := g 0, qos := g 1, burst := g 2, sys := g 3, host := g 4 }
+        match s.pendH with
+        | none => applyEvent s (some cm)
+        | some (kind, ident) =>
+          let s := { s with table := (ident, cm) :: s.table.filter (fun e => !(e.1 == ident)) }
+          s.hstep (if kind = 1 then .cmCreate ident else .cmUpdate ident)
       else s.bad
     | none => s.bad
   | "node" :: bw :: nl :: rest =>
-    match int? bw, nat? nl, nats? rest, s.pend with
-    | some bw, some nl, some kv, none =>
+    match int? bw, nat? nl, nats? rest, s.pend, s.hw with
+    | some bw, some nl, some kv, none, none =>
       if kv.length ≠ 2 * nl || bw < -2 then s.bad else
       let ls : Labels := (chunks 2 kv).filterMap fun | [k, v] => some (k, v) | _ => none
       let bw' : Option (Option Int) := if bw = -1 then none else if bw = -2 then some none else some (some bw)
@@ -154,7 +228,7 @@ def stepLine (s : DState) (line : String) : DState :=
         | some t => showFlat i t
         | none => [s!"o {i} nil"]).flatten
       { s with cfg := some s.cur, out := s.out ++ lines.toArray }
-    | _, _, _, _ => s.bad
+    | _, _, _, _, _ => s.bad
   | _ => s.bad
 
 def runCase (lines : List String) : List String := (lines.foldl stepLine {}).out.toList
